@@ -57,6 +57,11 @@ func (k *KnownFinding) matches(v *Violation) bool {
 	}
 	for f, want := range k.Signature {
 		var got string
+		contains := false
+		if strings.HasSuffix(f, "~") { // "field~": substring match
+			contains = true
+			f = strings.TrimSuffix(f, "~")
+		}
 		switch f {
 		case "check":
 			got = v.Check
@@ -70,6 +75,12 @@ func (k *KnownFinding) matches(v *Violation) bool {
 			if !ok {
 				return false
 			}
+		}
+		if contains {
+			if !strings.Contains(got, want) {
+				return false
+			}
+			continue
 		}
 		if got != want {
 			return false
